@@ -52,6 +52,11 @@ class RunResult:
     def decision_digest(self) -> str:
         return seeds.digest_text("\n".join(self.log))
 
+    def ops_digest(self) -> str:
+        """Decision layer without the scheduler-level lines (graph sizes and interleaving digests depend on
+        dask's own graph optimisation, which iterates over sets: stable only under a pinned PYTHONHASHSEED)."""
+        return seeds.digest_text("\n".join(l for l in self.log if not l.startswith("sched ")))
+
     def value_digest(self) -> str:
         return seeds.digest_text("\n".join(self.vlog))
 
@@ -99,6 +104,8 @@ def symptom_of(diffs: list[str]) -> str:
 # ----------------------------------------------------------------------------------------------
 class SimClock:
     def __init__(self, seed: int):
+        self.seed = seed
+        self.entropy_draws = {"uuid": 0, "numpy": 0}
         r = seeds.stream(seed, "clock")
         self.t = _dt.datetime(1990 + r.randrange(60), 1 + r.randrange(12), 1 + r.randrange(28),
                               r.randrange(24), r.randrange(60), r.randrange(60))
@@ -161,6 +168,30 @@ def simulated_ambient(clock: SimClock):
         bs.trange = range
     except Exception:
         pass
+    # entropy seams: uuid4/uuid1 (dask names its finalize/wait_on/non-tokenisable objects with them, and its
+    # graph optimisation orders by key) and numpy's OS-entropy source for generators created with seed None
+    # (dask.array.random, svd_compressed(seed=None)). Both are fed from the run seed so that one seed is one
+    # exactly repeatable execution; how often they are drawn from is counted.
+    import uuid as _uuid
+
+    import numpy.random.bit_generator as _bg
+    er = seeds.stream(clock.seed, "entropy")
+    clock.entropy_draws = {"uuid": 0, "numpy": 0}
+
+    def fake_uuid4():
+        clock.entropy_draws["uuid"] += 1
+        return _uuid.UUID(int=er.getrandbits(128), version=4)
+
+    def fake_randbits(k):
+        clock.entropy_draws["numpy"] += 1
+        return er.getrandbits(k)
+
+    saved.append((_uuid, "uuid4", _uuid.uuid4))
+    saved.append((_uuid, "uuid1", _uuid.uuid1))
+    saved.append((_bg, "randbits", _bg.randbits))
+    _uuid.uuid4 = fake_uuid4
+    _uuid.uuid1 = lambda *a, **k: fake_uuid4()
+    _bg.randbits = fake_randbits
     try:
         yield
     finally:
